@@ -39,46 +39,123 @@ theorem finish_spec {r : RMod} {bbs : List BBox} (h : Restricted r bbs) (ordIn :
     · exact g2has n _ (Or.inr (Or.inr (Or.inr ⟨t, ⟨s, hs, hd⟩, rfl⟩)))
   -- edges
   have hedge : ∀ e, e ∈ a2.edges ↔ EdgeOf bbs r.stmts "tie0" "tie1" e := hinv.edges
-  have hends : ∀ e ∈ a2.edges, g2.has e.1 = true ∧ g2.has e.2 = true := by
+  have g2none : ∀ n, g2.has n = false → ∀ x, ¬ NodeOf r bbs n x := by
+    intro n hn x hx
+    rw [g2has n x hx] at hn; cases hn
+  have htgt2 : ∀ e ∈ a2.edges, g2.has e.2 = true := by
     intro e he
     obtain ⟨s, hs, x, b, hxb, rfl⟩ := (hedge e).1 he
-    constructor
-    · rcases edge_src (h.stmts s hs) hxb with rfl | rfl | ⟨n, rfl, hu, _⟩ | ⟨n, rfl, hd⟩
-      · exact g2has _ _ (Or.inr (Or.inl ⟨rfl, rfl⟩))
-      · exact g2has _ _ (Or.inr (Or.inr (Or.inl ⟨rfl, rfl⟩)))
-      · obtain ⟨t, ht⟩ := h.uses_def hs hu
-        exact hdef_has n t ht
-      · exact hdef_has n _ (Or.inr ⟨s, hs, hd⟩)
-    · obtain ⟨t, hd⟩ := edge_tgt hxb
-      exact hdef_has b t (Or.inr ⟨s, hs, hd⟩)
-  rw [foldl_addEdgeAuto a2.edges g2 hends]
-  have g3nodes := foldl_addEdge_nodes a2.edges g2
-  have g3mem := foldl_addEdge_mem a2.edges g2
-  have g3nd := foldl_addEdge_nodup a2.edges (c := g2) (by rw [g2e]; exact List.nodup_nil)
-  have g3name := foldl_addEdge_name a2.edges g2
-  generalize List.foldl (fun c e => c.addEdge e.1 e.2) g2 a2.edges = g3 at g3nodes g3mem g3nd g3name ⊢
-  have g3edges : ∀ e, e ∈ g3.edges ↔ e ∈ a2.edges := by
+    obtain ⟨t, hd⟩ := edge_tgt hxb
+    exact hdef_has b t (Or.inr ⟨s, hs, hd⟩)
+  -- the edges; a source that is not a node yet is a floating net
+  obtain ⟨g3nd, g3ed, g3name, g3mem, g3has, g3old, g3new⟩ := foldl_addEdgeAuto_spec a2.edges g2 g2nd
+    (by rw [g2e]; exact List.nodup_nil)
+  generalize List.foldl addEdgeAuto g2 a2.edges = g3e at g3nd g3ed g3name g3mem g3has g3old g3new ⊢
+  have g3edges : ∀ e, e ∈ g3e.edges ↔ e ∈ a2.edges := by
     intro e; rw [g3mem, g2e]; simp
+  have hfl_new : ∀ n, Floating bbs r.inputs r.stmts n → g2.has n = false ∧ g3e.has n = true := by
+    intro n hfl
+    constructor
+    · cases hg : g2.has n with
+      | false => rfl
+      | true =>
+        exfalso
+        rw [has_eq_isSome] at hg
+        cases hx : g2.attr? n with
+        | none => rw [hx] at hg; cases hg
+        | some x =>
+          rcases (g2a n x).1 hx with ⟨hi, _⟩ | ⟨e, _⟩ | ⟨e, _⟩ | ⟨k, ⟨s, hs, hd⟩, _⟩
+          · exact hfl.2 _ (Or.inl ⟨hi, rfl⟩)
+          · exact (floating_ne_ties h hfl).1 e
+          · exact (floating_ne_ties h hfl).2 e
+          · exact hfl.2 _ (Or.inr ⟨s, hs, hd⟩)
+    · obtain ⟨s, hs, b, hb⟩ := hfl.1
+      exact (g3has n).2 (Or.inr ⟨(n, b), (hedge _).2 ⟨s, hs, .net n, b, hb, rfl⟩, Or.inl rfl⟩)
+  have hnew_fl : ∀ n, g2.has n = false → g3e.has n = true → Floating bbs r.inputs r.stmts n := by
+    intro n h2 h3
+    rcases (g3has n).1 h3 with h' | ⟨e, he, hne⟩
+    · rw [h2] at h'; cases h'
+    · rcases hne with rfl | rfl
+      · obtain ⟨s, hs, x, b, hxb, rfl⟩ := (hedge e).1 he
+        rcases edge_src_cases (ins := r.inputs) h.stmts hs hxb with rfl | rfl | ⟨m, rfl, ⟨t, ht⟩ | ⟨hfl, _⟩⟩
+        · exact absurd (Or.inr (Or.inl ⟨rfl, rfl⟩)) (g2none _ h2 _)
+        · exact absurd (Or.inr (Or.inr (Or.inl ⟨rfl, rfl⟩))) (g2none _ h2 _)
+        · have := hdef_has m t ht
+          rw [show g2.has m = false from h2] at this; cases this
+        · exact hfl
+      · rw [htgt2 e he] at h2; cases h2
+  have g3a : ∀ n x, (fillBuf g3e).attr? n = some x ↔
+      NodeOf r bbs n x ∨ (Floating bbs r.inputs r.stmts n ∧ x = { ty := some "buf", out := some false }) := by
+    intro n x
+    rw [fillBuf_attr]
+    cases hg : g2.has n with
+    | true =>
+      rw [g3old n hg]
+      constructor
+      · intro hx
+        cases hy : g2.attr? n with
+        | none => rw [hy] at hx; cases hx
+        | some y =>
+          rw [hy] at hx
+          have hny := (g2a n y).1 hy
+          have hty : ∃ t, y.ty = some t := by
+            rcases hny with ⟨_, rfl⟩ | ⟨_, rfl⟩ | ⟨_, rfl⟩ | ⟨k, _, rfl⟩ <;> exact ⟨_, rfl⟩
+          obtain ⟨t, ht⟩ := hty
+          simp only [Option.map_some, fillAttr_of_ty ht] at hx
+          injection hx with hx
+          exact Or.inl (hx ▸ hny)
+      · rintro (hx | ⟨hfl, _⟩)
+        · have hty : ∃ t, x.ty = some t := by
+            rcases hx with ⟨_, rfl⟩ | ⟨_, rfl⟩ | ⟨_, rfl⟩ | ⟨k, _, rfl⟩ <;> exact ⟨_, rfl⟩
+          obtain ⟨t, ht⟩ := hty
+          rw [(g2a n x).2 hx]
+          simp only [Option.map_some, fillAttr_of_ty ht]
+        · rw [(hfl_new n hfl).1] at hg; cases hg
+    | false =>
+      constructor
+      · intro hx
+        cases hy : g3e.attr? n with
+        | none => rw [hy] at hx; cases hx
+        | some y =>
+          have h3 : g3e.has n = true := by rw [has_eq_isSome, hy]; rfl
+          rw [g3new n hg h3] at hy
+          injection hy with hy
+          subst hy
+          rw [g3new n hg h3] at hx
+          injection hx with hx
+          exact Or.inr ⟨hnew_fl n hg h3, hx.symm⟩
+      · rintro (hx | ⟨hfl, rfl⟩)
+        · exact absurd hx (g2none n hg x)
+        · rw [g3new n hg (hfl_new n hfl).2]; rfl
+  have g3nn : (fillBuf g3e).nodeNames = g3e.nodeNames := fillBuf_nodeNames g3e
+  have hmono : ∀ n, g2.has n = true → (fillBuf g3e).has n = true := by
+    intro n hn
+    rw [fillBuf_has]; exact (g3has n).2 (Or.inl hn)
+  have hends : ∀ e ∈ a2.edges, (fillBuf g3e).has e.1 = true ∧ (fillBuf g3e).has e.2 = true := by
+    intro e he
+    rw [fillBuf_has, fillBuf_has]
+    exact ⟨(g3has _).2 (Or.inr ⟨e, he, Or.inl rfl⟩), (g3has _).2 (Or.inr ⟨e, he, Or.inr rfl⟩)⟩
+  have g3fe : (fillBuf g3e).edges = g3e.edges := rfl
+  have g3fn : (fillBuf g3e).name = g3e.name := rfl
+  generalize fillBuf g3e = g3 at g3a g3nn hmono hends g3fe g3fn ⊢
   -- outputs
   obtain ⟨g4, he4, e4, _, n4, nn4, a4⟩ := VR.setOut_fold r.outputs g3 (by
     intro o ho
     obtain ⟨t, ht⟩ := h.out_def ho
-    rw [has_congr g3nodes]
-    exact hdef_has o t ht)
+    exact hmono o (hdef_has o t ht))
   have g4edges : ∀ e, e ∈ g4.edges ↔ EdgeOf bbs r.stmts "tie0" "tie1" e := by
-    intro e; rw [e4, g3edges, hedge]
+    intro e; rw [e4, g3fe, g3edges, hedge]
   have wf4 : WF g4 := by
     refine ⟨?_, ?_, ?_⟩
-    · rw [nn4, nodeNames_congr g3nodes]; exact g2nd
-    · rw [e4]; exact g3nd
+    · rw [nn4, g3nn]; exact g3nd
+    · rw [e4, g3fe]; exact g3ed
     · intro e he
-      rw [e4] at he
+      rw [e4, g3fe] at he
       have := hends e ((g3edges e).1 he)
-      rw [has_iff_mem, has_iff_mem, nn4, nodeNames_congr g3nodes, ← has_iff_mem, ← has_iff_mem]
+      rw [has_iff_mem, has_iff_mem, nn4, ← has_iff_mem, ← has_iff_mem]
       exact this
   have g4a : ∀ n, g4.attr? n =
-      (g2.attr? n).map (fun a => if n ∈ r.outputs then { a with out := some true } else a) := by
-    intro n; rw [a4, attr?_congr g3nodes]
+      (g3.attr? n).map (fun a => if n ∈ r.outputs then { a with out := some true } else a) := a4
   -- constant nodes
   have htgt : ∀ e ∈ g4.edges, e.2 ≠ "tie0" ∧ e.2 ≠ "tie1" := by
     intro e he
@@ -96,9 +173,9 @@ theorem finish_spec {r : RMod} {bbs : List BBox} (h : Restricted r bbs) (ordIn :
     exact exists_congr (fun v => (e5 _).trans (g4edges _))
   refine ⟨_, by rw [he4, Arith.bind_ok]; rfl, ?_, wf_bbs w6 _, ?_, ?_, ?_⟩
   · show (VR.dropTie (VR.dropTie g4 "tie0") "tie1").name = r.name
-    rw [n6, n5, n4, g3name, g2n]
+    rw [n6, n5, n4, g3fn, g3name, g2n]
   · intro n a
-    rw [nodeSpec_iff h, ← view4 h g2a g4a]
+    rw [nodeSpec_iff h, ← view4 h g3a g4a]
     show view (VR.dropTie (VR.dropTie g4 "tie0") "tie1") n = some a ↔ _
     by_cases hn0 : n = "tie0"
     · subst hn0
